@@ -16,6 +16,8 @@ NOACCESS ?= 1
 # VX-SCHED: SCHED := 1 links the scheduler + tsan-ABI shim; TSAN_SRCS := coins.cpp node/miner.cpp ... compiles those
 # repo sources with -fsanitize=thread (atomics become scheduling points) and links them in front of the archives
 SCHED ?= 0
+# VX-CRASH: CRASH := 1 links the libc-level write recorder (vx/crashrec.c)
+CRASH ?= 0
 TSAN_SRCS ?=
 # mutant builds (bin/mutant-test): SHADOW=<dir> holds mutated copies under <dir>/src shadowing $(REPO)/src;
 # MUT_SRCS = repo sources to recompile against the shadow and link in front of the archives
@@ -58,6 +60,9 @@ KITOBJS := $(patsubst %,$(KITDIR)/%.o,$(sort $(KITS)))
 MUTOBJS := $(patsubst %.cpp,$(OUT)/mut/%.o,$(MUT_SRCS))
 ifeq ($(SCHED),1)
 SCHEDOBJS := $(BUILD)/vx/sched.o $(BUILD)/vx/tsanabi.o $(BUILD)/vx/sched_cb.o
+endif
+ifeq ($(CRASH),1)
+SCHEDOBJS += $(BUILD)/vx/crashrec.o
 endif
 TSANOBJS := $(patsubst %.cpp,$(OUT)/tsan/%.o,$(TSAN_SRCS))
 
